@@ -181,3 +181,49 @@ func VH_C11_IncludeExtends() {
 	}
 	symAssert(out == want, "included-extending-template")
 }
+
+// VH_C11_IgnoreMissingScope: `ignore missing` forgives exactly one thing: that the template named by
+// this include does not exist. A template that exists but fails inside (a nested include / extends /
+// import of a missing template, an unknown filter) is reported, at every depth.
+func VH_C11_IgnoreMissingScope() {
+	inner := []string{
+		"[p{% include 'nosuch' %}q]",
+		"[p{% include 'nosuch' ignore missing %}q]",
+		"{% extends 'nosuch' %}",
+		"[{% import 'nosuch' as l %}]",
+		"[{% from 'nosuch' import m %}]",
+		"<{% include 'deeper' %}>",
+		"<{% include 'deeper' ignore missing %}>",
+		"[{{ x|nosuchfilter }}]",
+		"[fine{{ x }}]",
+	}
+	k := symChoice(len(inner))
+	opt := []string{" ignore missing", " ignore missing only", " ignore missing with {'x': x}", ""}[symChoice(4)]
+	x := symStringIn(1, vhValAlphabet)
+	e := New()
+	e.RegisterString("deeper", "(d{% include 'nosuch' %})")
+	e.RegisterString("target", inner[k])
+	if e.RegisterString("main", "A{% include 'target'"+opt+" %}B") != nil {
+		symAssert(false, "template-parses")
+		return
+	}
+	out, err := e.Render("main", map[string]interface{}{"x": x})
+	symCover("rendered")
+	switch k {
+	case 1:
+		symAssert(err == nil && out == "A[pq]B", "inner-ignore-missing-honoured")
+	case 8:
+		want := "A[fine" + x + "]B"
+		if opt == " ignore missing only" {
+			want = "A[fine]B"
+		}
+		symAssert(err == nil && out == want, "existing-template-rendered")
+	case 7:
+		symAssert(err != nil && out == "", "failure-inside-existing-template-reported")
+	default:
+		symAssert(err != nil && out == "", "failure-inside-existing-template-reported")
+		if err != nil {
+			symAssert(errors.Is(err, ErrTemplateNotFound), "missing-template-reported")
+		}
+	}
+}
